@@ -30,12 +30,14 @@ def probe(run, exe):
 
 
 def alphabet(uid_a=1000, anc=DRIVER_COMM):
-    """~15 filter specs: known passing / dropping (depending on the state), unknown, empty, with / without arguments;
+    """~19 filter specs: known passing / dropping (depending on the state), unknown, empty, with / without arguments;
     anc = kernel process name of an ancestor common to the implementation driver's workers and the scripted caller"""
     u = b"%d" % uid_a
     return [b"only_root", b"only_uid:" + u, b"exclude_uid:" + u, b"only_uid:0," + u, b"only_tty", b"noop",
             b"exclude_spawns_of:" + anc, b"exclude_spawns_of:nosuchproc", b"nosuchfilter", b"nosuchfilter:arg",
-            b"", b"only_root:ignored", b":arg", b"exclude_uid:", b"only_uid"]
+            b"", b"only_root:ignored", b":arg", b"exclude_uid:", b"only_uid",
+            # every registered name also WITH an argument; arguments with blanks inside (a blank is not a delimiter)
+            b"only_tty:x", b"noop:arg", b"exclude_spawns_of:my shell," + anc, b"only_uid:7, " + u]
 
 
 def chains_upto(alpha, n):
@@ -130,7 +132,7 @@ def stage_tools(run):
     d = os.path.join(run.scratch, "tools")
     if not os.path.isdir(d):
         os.makedirs(d)
-        for f in ("tool_caller", "tool_runas", "librecorder.so"):
+        for f in ("tool_caller", "tool_runas", "tool_uidhist", "librecorder.so"):
             src = os.path.join(BUILD, "harness", f)
             if not os.path.exists(src):
                 raise CheckError("%s missing: run MANIFEST.setup_cmd" % src)
@@ -197,7 +199,7 @@ def uid_list(rng, uid, n, include):
         if r < 0.5:
             vals.append(rng.choice(nm))
         elif r < 0.8:
-            vals.append(rng.choice([0, 1, 999, 1000, 65534, 65535, 65536, 2 ** 31 - 1, 2 ** 31, 2 ** 32 - 2, 2 ** 32 - 1]))
+            vals.append(rng.choice([0, 1, 999, 1000, 4242, 65534, 65535, 65536, 2 ** 31 - 1, 2 ** 31, 2 ** 32 - 2, 2 ** 32 - 1]))     # 4242 = the harness's gid
         else:
             vals.append(rng.randrange(0, 2 ** 32))
     vals = [v for v in vals if v != uid] or [uid + 1]
@@ -266,4 +268,32 @@ def boundary_chains(limit, uid_pass, uid_drop):
             if room >= 1:
                 filler = ((b"%d," % uid_drop) * (room // (len(b"%d" % uid_drop) + 1) + 1))[:room].rstrip(b",")
                 out.append(head + filler + b"," + b"%d" % uid_pass)
+    return out
+
+
+def run_uidhist(run, lib, ini_bytes, seq, tag, timeout=60):
+    """one process image (root, LD_PRELOAD = lib + recorder), one exec call per entry of seq = [(uid, gid)], the real uid/gid changed
+    in between; file output to <dir>/out.log.  Returns [(uid, gid, bytes appended, ret, errno)] or an error string."""
+    tools = stage_tools(run)
+    os.chmod(lib, 0o755)
+    d = os.path.join(run.scratch, "hist-" + tag)
+    os.makedirs(d, exist_ok=True)
+    os.chmod(d, 0o777)
+    ini, log = os.path.join(d, "snoopy.ini"), os.path.join(d, "out.log")
+    open(ini, "wb").write(ini_bytes.replace(b"@D@", d.encode()))
+    os.chmod(ini, 0o644)
+    open(log, "wb").close()
+    os.chmod(log, 0o666)
+    e = {"PATH": "/usr/bin:/bin", "HOME": "/", "LD_PRELOAD": "%s %s" % (lib, os.path.join(tools, "librecorder.so"))}
+    try:
+        p = subprocess.run([os.path.join(tools, "tool_uidhist"), ini, log, ",".join("%d:%d" % x for x in seq)], env=e, cwd=d, timeout=timeout,
+                           stdin=subprocess.DEVNULL, stdout=subprocess.PIPE, stderr=subprocess.PIPE)
+    except subprocess.TimeoutExpired:
+        return "timeout"
+    if p.returncode != 0:
+        return "exit %d: %s" % (p.returncode, p.stderr.decode(errors="replace")[-200:])
+    out = []
+    for line in p.stdout.decode().splitlines():
+        f = line.split("\t")
+        out.append(tuple(int(x) for x in f))
     return out
